@@ -16,14 +16,28 @@ use vc_onnxgen::exec::{node_id, TVal};
 /// Intern a dynamic string as `&'static str` (operator names used as labels).
 pub fn intern(s: &str) -> &'static str {
     static TABLE: Mutex<Option<HashMap<String, &'static str>>> = Mutex::new(None);
-    let mut g = TABLE.lock().unwrap();
-    let t = g.get_or_insert_with(HashMap::new);
-    if let Some(v) = t.get(s) {
-        return v;
+    thread_local! {
+        static LOCAL: std::cell::RefCell<HashMap<String, &'static str>> = std::cell::RefCell::new(HashMap::new());
     }
-    let leaked: &'static str = Box::leak(s.to_string().into_boxed_str());
-    t.insert(s.to_string(), leaked);
-    leaked
+    LOCAL.with(|l| {
+        if let Some(v) = l.borrow().get(s) {
+            return *v;
+        }
+        let v = {
+            let mut g = TABLE.lock().unwrap();
+            let t = g.get_or_insert_with(HashMap::new);
+            match t.get(s) {
+                Some(v) => *v,
+                None => {
+                    let leaked: &'static str = Box::leak(s.to_string().into_boxed_str());
+                    t.insert(s.to_string(), leaked);
+                    leaked
+                }
+            }
+        };
+        l.borrow_mut().insert(s.to_string(), v);
+        v
+    })
 }
 
 #[derive(Debug)]
